@@ -13,7 +13,7 @@ use oracle::{bch, tables};
 use serde_json::json;
 
 pub const ID: &str = "C04";
-pub const FAMS: [&str; 4] = ["cell", "auto-everything", "no-level-beyond-q", "option-walk"];
+pub const FAMS: [&str; 5] = ["cell", "auto-everything", "no-level-beyond-q", "option-walk", "cleanest-symbol-search"];
 
 pub fn jobs(ctx: &Ctx) -> Vec<Job> {
     let caps = &ctx.caps;
@@ -78,6 +78,17 @@ pub fn jobs(ctx: &Ctx) -> Vec<Job> {
         let len = 1 + (mix(ctx.seed ^ 0x77, k as u64) as usize) % caps.cap(v, tables::H, 2).max(1);
         jobs.push(Job { fam: FAMS[3], class, mode: None, level: None, version: Some(v), mask: None, len, gen: k % GEN_COUNT, seed: mix(ctx.seed, k as u64), ..Default::default() });
     }
+    // feedback-directed search for unusually CLEAN symbols (automatic mask, versions 1-3): the payload is hill-climbed
+    // towards the lowest ranking score the crate itself reports through the candidate recorder; every improvement is
+    // checked like any other build. Random payloads never come near the low end of the penalty scale.
+    for i in 0..ctx.tier.pick(64usize, ctx.scale(1_500)) {
+        k += 1;
+        let v = 1 + i % 3;
+        let level = (i / 3) % 4;
+        let class = [2usize, 1, 2, 0][i % 4];
+        let len = 1 + (mix(ctx.seed ^ 0xc1ea, k as u64) as usize) % caps.cap(v, level, class).max(1);
+        jobs.push(Job { fam: FAMS[4], class, mode: Some(class), level: Some(level), version: Some(v), mask: None, len, gen: 0, seed: mix(ctx.seed, k as u64), ..Default::default() });
+    }
     // no level given and more data than level Q can hold in version 40 (but not more than level L can):
     // the default is Q, so no symbol exists; a build that answers with a symbol of a lower level does
     // not "default to level Q"
@@ -135,7 +146,71 @@ fn observe_beyond_q(st: &mut Stats, job: &Job) {
     }
 }
 
+fn cleanest_search(ctx: &Ctx, st: &mut Stats, job: &Job) {
+    let mut rng = oracle::rng::Rng::new(job.seed ^ 0xc1ea);
+    let mut payload = job.payload();
+    let span = [10usize, 45, 256][job.class];
+    let sym = |class: usize, k: usize| -> u8 {
+        match class {
+            0 => b'0' + (k % 10) as u8,
+            1 => tables::alnum_char(k % 45),
+            _ => k as u8,
+        }
+    };
+    let score_of = |p: &[u8]| -> Option<u32> {
+        let cfg = adapter::Config { input: p.to_vec(), mode: job.mode, level: job.level, version: job.version, mask: None };
+        let (out, rec) = adapter::build_recorded(&cfg);
+        match out {
+            Outcome::Ok(_) if !rec.is_empty() => rec.iter().map(|c| c.score).min(),
+            _ => None,
+        }
+    };
+    let mut best = match score_of(&payload) {
+        Some(s) => s,
+        None => {
+            // no recorder output (hook silent) or no symbol: nothing to steer by; the plain build is still checked
+            let j = Job { fam: FAMS[0], payload: Some(payload), ..job.clone() };
+            observe(ctx, st, &j);
+            return;
+        }
+    };
+    let steps = ctx.tier.pick(500, 1500);
+    for _ in 0..steps {
+        if payload.is_empty() {
+            break;
+        }
+        let at = rng.below(payload.len());
+        let old = payload[at];
+        payload[at] = sym(job.class, rng.below(span));
+        if tables::classify(&payload) > job.class {
+            payload[at] = old;
+            continue;
+        }
+        match score_of(&payload) {
+            Some(s) if s <= best => {
+                if s < best {
+                    best = s;
+                    let j = Job { fam: FAMS[0], payload: Some(payload.clone()), ..job.clone() };
+                    let before = st.violations.len();
+                    observe(ctx, st, &j);
+                    st.count("cleanest_search_improvements_checked", 1);
+                    if st.violations.len() > before {
+                        return;
+                    }
+                }
+            }
+            _ => payload[at] = old,
+        }
+    }
+    st.reach("lowest_ranking_scores_reached", best as u64);
+    // evidence: the lowest score any search reached (inverted so that the merge keeps the minimum)
+    st.max("max_of_1000000_minus_lowest_ranking_score", 1_000_000u64.saturating_sub(best as u64));
+}
+
 pub fn observe(ctx: &Ctx, st: &mut Stats, job: &Job) {
+    if job.fam == FAMS[4] {
+        return cleanest_search(ctx, st, job);
+    }
     if job.fam == FAMS[3] {
         // the walk: derive successive configurations from the job's seed; the payload stays the same
         let mut rng = oracle::rng::Rng::new(job.seed ^ 0x3a1c);
@@ -257,7 +332,7 @@ pub fn run(ctx: &Ctx) -> Report {
     let st = pool::run(&jobs, ctx.remaining(), |st, job, _| observe(ctx, st, job));
     let mut rep = Report::new(
         st,
-        "jobs = every (version, level, mask) cell (1280, enumerated completely) with the 16 forced/automatic option combinations rotating (level only left automatic in Q cells), + builds with nothing forced per (version, class) + option walks (one payload built 4-8 times in a row on one thread while one option at a time is forced, released or changed) + builds with no level given and more data than level Q holds in version 40 (any symbol returned there is not level Q); both 15-bit format copies are read at the ISO positions and must equal BCH(15,5)(level,mask)^0x5412 computed by polynomial division, both 18-bit version blocks must equal BCH(18,6)(version), and version/level/mask/mode/size fields must equal what the symbol physically encodes (mode from the decoded mode indicator), what was forced, and level Q by default; distinct key = (options, len, payload hash); every case non-trivial",
+        "jobs = every (version, level, mask) cell (1280, enumerated completely) with the 16 forced/automatic option combinations rotating (level only left automatic in Q cells), + builds with nothing forced per (version, class) + feedback-directed searches for unusually clean symbols (payload hill-climbed towards the lowest ranking score the crate reports, versions 1-3, automatic mask; every improvement checked) + option walks (one payload built 4-8 times in a row on one thread while one option at a time is forced, released or changed) + builds with no level given and more data than level Q holds in version 40 (any symbol returned there is not level Q); both 15-bit format copies are read at the ISO positions and must equal BCH(15,5)(level,mask)^0x5412 computed by polynomial division, both 18-bit version blocks must equal BCH(18,6)(version), and version/level/mask/mode/size fields must equal what the symbol physically encodes (mode from the decoded mode indicator), what was forced, and level Q by default; distinct key = (options, len, payload hash); every case non-trivial",
     );
     rep.exhaustive = Some(true);
     rep.expected_sets = vec![("version_level_mask", 1280), ("level_mask_words", 32), ("version_words", 34), ("forced_option_combos", 16)];
